@@ -454,7 +454,14 @@ class Engine:
             r = self.call_method(cur, "__iadd__", [rhs], {})
             self.assign(st.target, r)
             return
+        if isinstance(cur, (set, list, dict, bytearray)):
+            # `x op= y` on a mutable container of the real module (class-level table, module constant) mutates it IN PLACE: every other
+            # reference - later calls included - sees the change.  The engine keeps value semantics for the rest of the run, but the
+            # mutation is recorded: a function whose contract has an empty frame on module data fails on it.
+            self.mutated_real.append((self.frames[-1].qualname if self.frames else "?", st.lineno, type(cur).__name__, ast.unparse(st)[:80]))
         self.assign(st.target, self.binop(st.op, cur, rhs))
+
+    mutated_real = []
 
     def _load(self, t):
         if isinstance(t, ast.Name):
